@@ -116,10 +116,18 @@ def _mutate(ck: Check, repo: Repo) -> None:
             r = tb.term(n.ast.comparators[0], n)
             op = type(n.ast.ops[0])
             V = Poly.atom("attr:self.value")
-            if l == V * Poly.atom("attr:self.shrink_factor"):
-                ok = op in (ast.Gt, ast.GtE) and _is_attr(tb, r, "min")
-            elif l == V * Poly.atom("attr:self.grow_factor"):
-                ok = op in (ast.Lt, ast.LtE) and _is_attr(tb, r, "max")
+            # comparisons are canonicalised on loading (`a > b` is seen as `b < a`): accept both operand orders explicitly
+            shrunk, grown = V * Poly.atom("attr:self.shrink_factor"), V * Poly.atom("attr:self.grow_factor")
+            lt = op in (ast.Lt, ast.LtE)
+            gt = op in (ast.Gt, ast.GtE)
+            if l == shrunk:
+                ok = gt and _is_attr(tb, r, "min")
+            elif r == shrunk:
+                ok = lt and _is_attr(tb, l, "min")
+            elif l == grown:
+                ok = lt and _is_attr(tb, r, "max")
+            elif r == grown:
+                ok = gt and _is_attr(tb, l, "max")
             else:
                 ok = False
             ck.ob("C06.1", fn, n.ast, ok, "a shrunk value is compared with min (>) and a grown value with max (<)")
